@@ -9,7 +9,7 @@ import torch as tn
 import torchtt
 import torchtt._tt_base as B
 from common import run_driver, out_err
-from walk import Walker
+from walk import Walker, rnd_tt
 from util import J
 
 LEVEL = "proof"
@@ -80,7 +80,75 @@ def meta_str(x):
     return "obj %s N %s M %s R %s S %s C %s" % ("M" if x.is_ttm else "T", N, M, R, sh, [list(c.shape) for c in x.cores])
 
 
+def directed_histories(res, rng):
+    """scripted histories around the in-place operations: objects that must be independent of the one being modified (built from a shared
+    shape list, obtained by round / clone / detach / to / arithmetic with trivial effect) stay well formed and keep their value"""
+    def fresh(kind):
+        N = [rng.randint(2, 4) for _ in range(3)]
+        if kind == "rank1":
+            return torchtt.ones(N, dtype=tn.float64), N
+        if kind == "rank1-ttm":
+            return torchtt.eye(N, dtype=tn.float64), N
+        return rnd_tt(rng, N, None, tn.float64), N
+    scripts = []
+    for kind in ("rank1", "rank1-ttm", "generic"):
+        for via in ("round", "round-eps", "clone", "detach", "to", "mul1", "add0", "shared-shape-list"):
+            scripts.append((kind, via))
+    for kind, via in scripts:
+        x, N = fresh(kind)
+        caller = None
+        if via == "shared-shape-list":
+            if x.is_ttm:
+                continue
+            caller = list(N)
+            dense = x.full().clone()
+            x = torchtt.TT(dense, caller, eps=1e-12)
+            y = torchtt.TT(dense * 2, caller, eps=1e-12)
+        elif via == "round":
+            y = x.round(1e-12)
+        elif via == "round-eps":
+            y = x.round(1e-3, 5)
+        elif via == "clone":
+            y = x.clone()
+        elif via == "detach":
+            y = x.detach()
+        elif via == "to":
+            y = x.to(dtype=tn.float64)
+        elif via == "mul1":
+            y = x * 1.0
+        else:
+            y = x + 0.0 if not x.is_ttm else x * 1
+        keep_val = x.full().clone()
+        keep_meta = (list(x.N), list(x.M) if x.is_ttm else None, [int(r) for r in x.R])
+        for who in ("result", "operand"):
+            tgt, other = (y, x) if who == "result" else (x, y)
+            other_val, other_meta = other.full().clone(), (list(other.N), [int(r) for r in other.R])
+            k = rng.randrange(len(tgt.cores))
+            c = tgt.cores[k]
+            newshape = list(c.shape); newshape[1] += 1
+            try:
+                tgt.set_core(k, tn.ones(newshape, dtype=c.dtype))
+            except Exception as e:
+                res.violation({"property": "C05", "kind": "oracle-failure", "class": "history/%s/%s" % (kind, via), "case": "set_core on the %s raised %s" % (who, type(e).__name__),
+                               "oracle": "set_core with matching ranks must be accepted", "seed": res.seed})
+                break
+            res.evaluations += 1
+            res.oracle_checked += 2
+            res.classes["history/%s/%s" % (kind, via)] = res.classes.get("history/%s/%s" % (kind, via), 0) + 1
+            res.nontrivial.add(hash(("history", kind, via, who)))
+            msg = wf_violation(other) or wf_violation(tgt)
+            if not msg and ((list(other.N), [int(r) for r in other.R]) != other_meta or not tn.equal(other.full(), other_val)):
+                msg = "the other object changed (N %s -> %s)" % (other_meta[0], list(other.N))
+            if not msg and caller is not None and caller != N:
+                msg = "the caller's shape list %s was rewritten to %s" % (N, caller)
+            if msg:
+                res.violation({"property": "C05", "kind": "oracle-failure", "class": "history/%s/%s" % (kind, via),
+                               "case": "x = %s operand; y obtained via %s; set_core(%d, mode+1) on the %s" % (kind, via, k, who), "oracle": msg, "seed": res.seed})
+                break
+
+
 def run(res, rng, tier, known):
+    directed_histories(res, rng)
     nwalks, nsteps = (6, 60) if tier == "quick" else (40, 250)
     model_lines, impl_outs = [], []
     orig_init = B.TT.__init__
@@ -144,6 +212,12 @@ def run(res, rng, tier, known):
                                        "case": "walk %d step %d: after %s on refs %s, live object #%d is malformed" % (w, st, op, info["refs"], idx),
                                        "oracle": v, "object": meta_str(x), "history": wk.log[-25:], "seed": res.seed})
                         break
+                for (lst, keep) in getattr(wk, "shared_lists", []):
+                    if lst != keep and not res.violations:
+                        res.violation({"property": "C05", "kind": "oracle-failure", "class": cls,
+                                       "case": "walk %d step %d: after %s the caller's own shape list %s was rewritten to %s" % (w, st, op, keep, lst),
+                                       "oracle": "a list passed as `shape` to the constructor is aliased by the object and modified by an in-place operation",
+                                       "history": wk.log[-25:], "seed": res.seed})
                 if res.violations:
                     break
             if res.violations:
